@@ -43,8 +43,8 @@ type Failure struct {
 	Oracle     string     `json:"oracle,omitempty"` // property violated on the real library (independent of the model)
 	// Confirmed: decision of confirmFailure on the real library alone - "yes: …" the property fails on this
 	// input, "no: …" only the correspondence is broken here, "" the disagreement itself is the violation
-	Confirmed string `json:"confirmed,omitempty"`
-	Answers    []string   `json:"answers,omitempty"`
+	Confirmed string   `json:"confirmed,omitempty"`
+	Answers   []string `json:"answers,omitempty"`
 }
 
 type Report struct {
@@ -52,7 +52,7 @@ type Report struct {
 	Seed        int64          `json:"seed"`
 	Evaluations int            `json:"evaluations"`
 	Distinct    int            `json:"distinct_nontrivial"`
-	Failures    []Failure      `json:"failures"`       // disagreements inside the projection, or oracle violations
+	Failures    []Failure      `json:"failures"` // disagreements inside the projection, or oracle violations
 	OtherCats   map[string]int `json:"other_category_disagreements"`
 	Outcomes    map[string]int `json:"outcome_distribution"`
 	Tokens      map[string]int `json:"token_distribution"`
